@@ -23,7 +23,7 @@ def describe(tier):
     return {
         "rule": "(a) index methods: every transition of the C06 state graph (BFS to fixpoint) checks that the receiver of every non-mutating method and every argument (masks, "
         "mappings, precedence lists, order lists, partner indexes, entry dicts) is byte-identical afterwards. (b) aggregates: a fixed population of 2 index cubes, 2 array "
-        "cubes, 12 + 25 aggregate-function objects (every class in two parameterisations: real numbers hidden under False validity with NaN-marked weights missing on a valid row; NaN-marked facts with (values, validity) weights hiding 1e300) and their caller-owned arrays (facts, validity arrays, values hidden under False validity, weights, dimension arrays, "
+        "cubes, 17 + 39 aggregate-function objects (every class in up to four parameterisations, with and without weights: real numbers hidden under False validity with NaN-marked weights missing on a valid row; NaN-marked facts with (values, validity) weights hiding 1e300) and their caller-owned arrays (facts, validity arrays, values hidden under False validity, weights, dimension arrays, "
         "index entries, tuples, dimension lists); event = cube.calculate(every ordered selection of 1..%d function objects%s) or a shortcut method; BFS over call histories "
         "to depth %d with the visited set keyed by a hash of the ENTIRE reachable object state (diagnostic counters excluded). On every transition: returned arrays == each "
         "aggregate evaluated alone on fresh objects, bit for bit; caller-owned arguments byte-identical. (c) cube construction leaves its dimension list and arrays untouched." % (
